@@ -141,10 +141,23 @@ _EX = None
 def _worker_step(k):
     ex = _EX
     s = ex.store[k][0]
-    out = []
+    byk = {}
     for post, rv in ex.step(s):
         c = ex.canon(post)
-        out.append((ex.key(c), c))
+        byk.setdefault(ex.key(c), []).append(c)
+    out = []
+    for kk, cs in byk.items():
+        # pre-join what this step sends to the same partition (the parent joins across steps)
+        uniq = []
+        for c in cs:
+            if not any(ex.it.same_state(c, u) for u in uniq):
+                uniq.append(c)
+        if len(uniq) > 1:
+            j = ex.it.join(uniq, 'step', None, namefn=ex.fname)
+            j.stack = ()
+            ex._gc(j)
+            uniq = [j]
+        out.append((kk, uniq[0]))
     return out
 
 
@@ -547,6 +560,7 @@ class Explorer:
                 for kk, c in res:
                     arrivals.setdefault(kk, []).append(c)
             pending = set()
+            t2 = time.time()
             for kk, posts in arrivals.items():
                 ent = self.store.get(kk)
                 if ent is None:
@@ -566,7 +580,7 @@ class Explorer:
                 if not posts:
                     continue
                 self.stats['joins'] += 1
-                j = it.join([old] + posts, 'step', None, widen=(visits >= 3), prev=old, namefn=self.fname, hard=(visits >= 14))
+                j = it.join([old] + posts, 'step', None, widen=(visits >= 2), prev=old, namefn=self.fname, hard=(visits >= 10))
                 j.stack = ()
                 self._gc(j)
                 if it.same_state(old, j):
@@ -575,6 +589,7 @@ class Explorer:
                 ent[1] = visits + 1
                 pending.add(kk)
             if dbg:
+                print('  tjoin', round(time.time() - t2, 1), end='')
                 print('  round', rounds, 'store', len(self.store), 'pending', len(pending), round(time.time() - t1, 1), 's', flush=True)
         self.stats['time'] = time.time() - t0
         self.stats['rounds'] = rounds
